@@ -82,6 +82,18 @@ CLAIMED = {
         "property-based testing (Hypothesis, scripted randomness) with validity-predicate oracles and reference tallies",
         "3/C01",
     ),
+    "C13": (
+        "Differential: the recorded rounds of IRV, SNTV, SequentialRCV, TopTwo and Alaska on generated untied "
+        "profiles are compared with those of separately constructed components under one shared seed or script "
+        "(STV m=1; Plurality; STV with a harness-written full-weight transfer; Plurality(2) then Plurality(1) on "
+        "the harness-reduced profile plus a direct runoff oracle; Plurality(m_1) -> harness removal -> STV(m_2)); "
+        "exception types must agree and round numbers must equal indices.",
+        "Both sides are VoteKit components (differential), the reduction and the runoff oracle are harness code; "
+        "with random_transfer and at least one draw only the rounds before the first sampled transfer are compared; "
+        "Alaska's replay KeyError is known finding F14-C13.",
+        "differential property-based testing (Hypothesis) under a shared scripted/seeded random stream",
+        "3/C13",
+    ),
 }
 
 PENDING_REASON = "check not built yet in this session; the design (DESIGN.md section 3) claims it and it will be registered once it is quiet on the unchanged tree and catches its mutants"
